@@ -351,12 +351,18 @@ def restrict_to_closure(sp, rng, drop_outside_zero=True):
     return sp
 
 
-def random_policy(rng, sp, deterministic=None):
-    """Row-stochastic table on available actions (with zeros)."""
+def random_policy(rng, sp, deterministic=None, prefer_zero_reward=False):
+    """Row-stochastic table on available actions (with zeros). prefer_zero_reward: where a state has an
+    action whose every positive-probability outcome pays 0, play only such actions (drives the policy
+    chain into zero-reward closed classes, the delicate case of undiscounted evaluation)."""
     pol = {}
     det = rng.random() < 0.3 if deterministic is None else deterministic
     for s in sp.states:
         acts = sp.acts[s]
+        if prefer_zero_reward and rng.random() < 0.8:
+            zero = [a for a in acts if all(sp.reward(s, a, t) == 0 for t, q in sp.P[(s, a)] if q > 0)]
+            if zero:
+                acts = tuple(zero)
         if det or len(acts) == 1 or rng.random() < 0.3:
             a = rng.choice(acts)
             pol[s] = {a: 1.0}
